@@ -23,11 +23,13 @@ func VH_C12_updown_sched() {
 		vAssert("C12.updown.no-error", err == nil)
 		return string(w.buf)
 	}
-	base := run()
 	vNumCPU(1 + vChoice("ncpu", vParam("NCPU")+1))
 	vRaceDetect()
 	vSchedExplore(vParam("DEV"))
-	vAssert("C12.updown.output-independent-of-schedule", run() == base)
+	got := run()
+	vSchedExplore(0)
+	vNumCPU(vParam("NCPU"))
+	vAssert("C12.updown.output-independent-of-schedule", got == run())
 }
 
 // VH_C12_updown_arrival: reorderRecords and the list writer restore input order for every arrival order.
